@@ -42,7 +42,7 @@ FAMILIES = [
     (["allow cd *", "allow cd"], ["cd sub", "cd /"]),
     (["allow command *", "allow mytool"], ["command mytool", "command -p mytool deploy"]),
     (["allow ./tool *", "allow ./tool"], ["./tool", "./tool run"]),
-    (["allow mytool"], ["A=1 B=2 mytool", "a[0]=v mytool deploy", "PATH+=:/x mytool"]),
+    (["allow mytool"], ["A=1 B=2 mytool", "a[0]=v mytool deploy", "LIBDIRS+=:/x mytool"]),
 ]
 
 
@@ -97,7 +97,7 @@ def run(tier, seed, replay=None):
         cfg1 = parse_config(BASE_CFG + rule + "\n")
         d1 = an.analyze(text, cfg1, Path(cwd))
         v1 = d1.action
-        if v1 == "ask" and d1.reason.startswith("parse error"):
+        if v1 == "ask" and lib.parser_rejects(text):
             # the vendored parser rejects some valid programs (e.g. ";;&" before esac): the whole line is then
             # asked with or without the rule - nothing is approved, no rule is consulted, nothing to mask
             out.count("skipped", "parser-rejected")
